@@ -14,6 +14,7 @@ f-strings, conditional expressions, names shadowing builtins) and compares the
 engine's value with plain Python eval.
 """
 import random
+import re
 
 from checks import c01
 from vlib import exprs, monitors, tmodel
@@ -25,7 +26,7 @@ LEVEL = 'exploration'
 SHARDS = {'quick': 16, 'thorough': 16}
 FLOOR = {'quick': 1500, 'thorough': 20000}
 REQUIRED_MONITORS = {'model-compared': 4000, 'pipe-fell-through': 1500, 'propagated': 200, 'dead-expressions-watched': 2000,
-                     'python-eval-compared': 1500, 'imports-compared': 100}
+                     'python-eval-compared': 1500, 'imports-compared': 100, 'access-paths-compared': 2000}
 RULE = ('a case = (program, expression trees at statement and ${} sites, binding table); pipes of length 1..4 whose leading '
         'alternatives raise each of AttributeError, NameError, KeyError, IndexError, LookupError, TypeError, ValueError, '
         'UnicodeDecodeError, UnboundLocalError (must fall through) or ZeroDivisionError, RuntimeError, OSError, AssertionError, '
@@ -349,6 +350,217 @@ def layer_python(ctx, n):
                 e, sorted(shadow), got_s, want_s), {'kind': 'py', 'expr': e, 'src': src})
 
 
+# ---------------------------------------------------------------------------
+# access paths: '.name' applied to anything (names, subscripts, calls, parenthesised expressions, comprehension
+# results ...) over a tree of records that offer the name as attribute, as item, as both, or not at all
+class PathAttrError(AttributeError):
+    """an AttributeError subclass with arguments of its own (raised by Guarded.__getattr__)"""
+
+    def __init__(self, name, code):
+        super().__init__(name, code)
+        self.name_, self.code = name, code
+
+
+class Rec:
+    """attributes only"""
+
+    def __init__(self, **kw):
+        self.__dict__.update(kw)
+
+
+class Row:
+    """items only (not a dict: no .get, no .items)"""
+
+    def __init__(self, **kw):
+        self._d = kw
+
+    def __getitem__(self, k):
+        return self._d[k]
+
+
+class Guarded:
+    """unknown attributes raise a custom AttributeError; items raise KeyError"""
+
+    def __init__(self, **kw):
+        self._d = kw
+
+    def __getattr__(self, name):
+        if name.startswith('_'):
+            raise AttributeError(name)
+        if name in self._d:
+            return self._d[name]
+        raise PathAttrError(name, 42)
+
+    def __getitem__(self, k):
+        raise KeyError(k)
+
+
+KEYS = ['a', 'b', 'user', 'rows', 'title', 'name']
+
+
+def path_tree(rng, depth=0):
+    if depth >= 3 or (depth and rng.random() < .25):
+        return rng.choice(['leaf<%d>' % rng.randint(0, 99), 'x', 7, None if depth else 'n'])
+    kind = rng.choice(['dict', 'dict', 'rec', 'row', 'guarded', 'list'])
+    if kind == 'list':
+        return [path_tree(rng, depth + 1) for _ in range(rng.randint(1, 2))]
+    kids = {k: path_tree(rng, depth + 1) for k in rng.sample(KEYS, rng.randint(1, 3))}
+    return {'dict': dict, 'rec': Rec, 'row': Row, 'guarded': Guarded}[kind](**kids)
+
+
+def children(v):
+    if isinstance(v, dict):
+        return v
+    if isinstance(v, Rec):
+        return v.__dict__
+    if isinstance(v, (Row, Guarded)):
+        return v._d
+    return None
+
+
+def ref_attr(obj, name):
+    """the documented rule, written independently: the attribute; else the item; a missing item re-raises the
+    attribute error"""
+    try:
+        return getattr(obj, name)
+    except AttributeError as exc:
+        if not hasattr(type(obj), '__getitem__'):
+            raise
+        try:
+            return obj[name]
+        except KeyError:
+            raise exc
+
+
+def ident(x):
+    return x
+
+
+def path_expr(rng, tree):
+    """-> (source, thunk): thunk() computes the reference value (or raises)"""
+    src, val = 'd', (lambda: tree)
+    cur = tree          # the value when nothing fails (None once the path has left the tree)
+    steps = rng.randint(1, 4)
+    for _ in range(steps):
+        kids = children(cur) if cur is not None else None
+        if isinstance(cur, list):
+            i = rng.randrange(len(cur))
+            src, val, cur = '%s[%d]' % (src, i), (lambda v=val, i=i: v()[i]), cur[i]
+        elif kids is not None:
+            k = rng.choice(sorted(kids)) if rng.random() < .85 else 'nosuch'
+            form = rng.random()
+            if form < .7 or k == 'nosuch':
+                src, val = '%s.%s' % (src, k), (lambda v=val, k=k: ref_attr(v(), k))
+            elif isinstance(cur, dict) and form < .85:
+                src, val = "%s.get('%s')" % (src, k), (lambda v=val, k=k: v().get(k))
+            elif isinstance(cur, (dict, Row)):
+                src, val = "%s['%s']" % (src, k), (lambda v=val, k=k: v()[k])
+            else:
+                src, val = '%s.%s' % (src, k), (lambda v=val, k=k: ref_attr(v(), k))
+            cur = kids.get(k)
+        else:
+            break
+        # wrap the expression so far: the next '.name' is then applied to something that is not a dotted chain
+        w = rng.random()
+        if w < .12:
+            src = 'ident(%s)' % src
+        elif w < .22:
+            src, val = '(%s or d)' % src, (lambda v=val: v() or tree)
+            if not cur:
+                cur = tree
+        elif w < .30:
+            src = '(%s if 1 else 0)' % src
+        elif w < .38:
+            src = '[q for q in (%s,)][0]' % src
+        elif w < .44:
+            src = '(lambda: %s)()' % src
+        elif w < .50:
+            src = "{'w': %s}['w']" % src
+        elif w < .55:
+            src = '(%s)' % src
+    if rng.random() < .3:
+        src, val = 'str(%s).upper()' % src, (lambda v=val: str(v()).upper())
+    return src, val
+
+
+PATH_CONTEXTS = ['content', 'interp', 'pipe', 'exists', 'define', 'python-prefix', 'attribute', 'condition']
+
+
+def layer_paths(ctx, n):
+    from chameleon import PageTemplate
+    rng = ctx.rng
+    for i in range(n):
+        tree = path_tree(rng)
+        while children(tree) is None and not isinstance(tree, list):
+            tree = path_tree(rng)
+        src_e, thunk = path_expr(rng, tree)
+        try:
+            v = thunk()
+            want = ('VALUE', '' if v is None else exprs.to_text(v) if isinstance(v, (str, int, float)) else None)
+            if want[1] is None:
+                continue        # a container: its string form is not what is compared here
+        except Exception as ex:
+            want = ('RAISED', type(ex).__name__, getattr(ex, 'args', None) if isinstance(ex, PathAttrError) else None)
+        c = rng.choice(PATH_CONTEXTS)
+        e = src_e.replace("'", '&#39;') if rng.random() < .2 else src_e
+        esc = exprs.escape_text
+        if c == 'content':
+            src, exp = '<p tal:content="%s">x</p>' % e, lambda t: '<p>%s</p>' % esc(t)
+        elif c == 'interp':
+            src, exp = '<p>${%s}</p>' % e, lambda t: '<p>%s</p>' % esc(t)
+        elif c == 'pipe':
+            src, exp = '<p tal:content="%s | string:ALT">x</p>' % e, lambda t: '<p>%s</p>' % esc(t)
+        elif c == 'exists':
+            src, exp = '<p tal:content="exists: %s">x</p>' % e, lambda t: '<p>1</p>'
+        elif c == 'define':
+            src, exp = '<p tal:define="w %s">[${w}]</p>' % e, lambda t: '<p>[%s]</p>' % esc(t)
+        elif c == 'python-prefix':
+            src, exp = '<p tal:content="python: %s">x</p>' % e, lambda t: '<p>%s</p>' % esc(t)
+        elif c == 'attribute':
+            src, exp = '<p tal:attributes="k %s">x</p>' % e, lambda t: '<p k="%s">x</p>' % esc(t)
+        else:
+            src, exp = '<p tal:condition="%s">x</p>' % e, None
+        if want[0] == 'VALUE':
+            if c == 'condition':
+                expect = '<p>x</p>' if v else ''
+            elif c == 'attribute' and v is None:
+                expect = '<p>x</p>'
+            elif c == 'content' and v is None or c == 'python-prefix' and v is None:
+                expect = '<p></p>'
+            else:
+                expect = exp(want[1])
+        else:
+            falls = want[1] in ('AttributeError', 'PathAttrError', 'KeyError', 'IndexError', 'TypeError', 'ValueError', 'NameError')
+            if c == 'pipe' and falls:
+                expect = '<p>ALT</p>'
+            elif c == 'exists' and want[1] in ('AttributeError', 'PathAttrError', 'KeyError', 'IndexError', 'TypeError', 'NameError'):
+                expect = '<p>0</p>'
+            else:
+                expect = want
+        try:
+            got = PageTemplate(src)(d=tree, ident=ident)
+        except Exception as ex:
+            got = ('RAISED', type(ex).__mro__[1].__name__ if hasattr(ex, '_original__str__') else type(ex).__name__,
+                   getattr(ex, 'args', None) if isinstance(ex, PathAttrError) else None)
+        ctx.mon('access-paths-compared')
+        shape = re.sub(r"\b(%s|nosuch)\b" % '|'.join(KEYS), 'K', re.sub(r'\d+', 'N', src_e))
+        ctx.case(key=('path', shape, c, want[0]), nontrivial='.' in src_e,
+                 sample={'source': src, 'rendered': repr(got)} if i < 2 else None)
+        if got != expect:
+            ctx.violation('access-path-differs:' + ('value' if want[0] == 'VALUE' else want[1]),
+                          'template %r over d=%s: engine %r, expected %r' % (src, describe(tree), got, expect),
+                          {'kind': 'path', 'src': src})
+
+
+def describe(v):
+    if isinstance(v, list):
+        return '[%s]' % ', '.join(describe(x) for x in v)
+    kids = children(v)
+    if kids is None:
+        return repr(v)
+    return '%s(%s)' % (type(v).__name__, ', '.join('%s=%s' % (k, describe(x)) for k, x in kids.items()))
+
+
 def layer_import(ctx, n):
     """import: on dotted names through packages nobody has imported yet (fresh packages written to a scratch
     directory): the value is known by construction, whatever the import history of the process; a missing
@@ -411,6 +623,7 @@ def run(ctx):
     layer_import(ctx, 20 if ctx.quick else 200)
     layer_model(ctx, 120 if ctx.quick else 2500)
     layer_python(ctx, 150 if ctx.quick else 3000)
+    layer_paths(ctx, 250 if ctx.quick else 5000)
 
 
 def replay(data):
